@@ -105,6 +105,10 @@ impl Connection {
             // Discard the frame for unknown message from the buffer
             Err(Error::UnknownId(_)) => {
                 let len = crs.position() as usize;
+                // Body of the unknown message has not been fully buffered yet
+                if len > self.buffer.len() {
+                    return Ok(None);
+                }
                 self.buffer.advance(len);
 
                 Ok(None)
